@@ -1,1 +1,149 @@
-(* placeholder until the proofs land *)
+(* Properties/C16.v — pinned statements for property C16:
+   "Compiler processes are bounded by the job-token pool and tokens never leak"  (PARTIAL: the
+   `jobserver` crate's pipe is a counter; the compilers' own use of the inherited pipe is not modelled).
+
+   Model: Model/Jobserver.v — src/jobserver.rs (`Client::new_num`, the helper-thread closure, `acquire`)
+   and the token life-cycle of src/mock_command.rs (`AsyncCommand::spawn`, `Child::wait`, drops).
+   State: pool (tokens in the pipe), reqs (helper cycles owed), hand (the helper holds a token), queue (FIFO
+   of one-shot senders), gone (queued requests whose receiver was dropped), slots (token sent, not yet
+   received), held (`Acquired` without a process), running (`Child` alive), orphans (processes whose `Child`
+   was dropped: tokio does not kill them).
+   Events, in ANY order the model allows — `run (init n) es = Some s` ranges over ALL finite schedules of
+   requesters, helper thread, cancellations at any point, process exits with either status, spawn
+   failures, early drops; no bound on their number or on the number of requests:
+     Request r, HelperAcquire, Deliver, Receive r, Cancel r, DropHeld r, Start r, SpawnFail r, Exit r ok,
+     DropRunning r, OrphanExit r.
+   in_hand_off = hand + |slots|, holding = |held| + |running|, live_procs = |running| + |orphans|. *)
+From Coq Require Import List NArith Bool.
+From Sccache Require Import Model.Jobserver.
+From Sccache Require Import Proofs.Jobserver.
+Import ListNotations.
+Local Open Scope N_scope.
+
+(* Tokens are neither created nor destroyed: pipe + hand-over + requesters = n, after every schedule. *)
+Theorem C16_conservation :
+  forall (n : N) (es : list event) (s : st),
+  run (init n) es = Some s -> pool s + in_hand_off s + holding s = n.
+Proof. exact conservation. Qed.
+Print Assumptions C16_conservation.
+
+(* Never more token-holding compiler / preprocessor processes than tokens, however many requests there are. *)
+Theorem C16_bound :
+  forall (n : N) (es : list event) (s : st),
+  run (init n) es = Some s -> len (running s) <= n /\ holding s <= n.
+Proof. exact bound. Qed.
+Print Assumptions C16_bound.
+
+(* Counting the processes that are alive: the excess over n is exactly the orphans, and they come from
+   `Child`s dropped before `wait` completed (DropRunning) only; without such drops, live processes <= n. *)
+Theorem C16_bound_live :
+  forall (n : N) (es : list event) (s : st),
+  run (init n) es = Some s ->
+  live_procs s <= n + len (orphans s) /\
+  (forallb (fun e => negb (is_drop_running e)) es = true -> live_procs s <= n).
+Proof. exact bound_live. Qed.
+Print Assumptions C16_bound_live.
+
+(* Every exit path returns the token at once: Acquired dropped, spawn failure, process exit with success OR
+   failure, Child dropped while running, request dropped with the token already in its slot. *)
+Theorem C16_no_leak :
+  forall (s : st) (e : event) (s' : st),
+  step s e = Some s' -> gives_back s e = true ->
+  pool s' = pool s + 1 /\ in_hand_off s' + holding s' + 1 = in_hand_off s + holding s.
+Proof. exact no_leak_step. Qed.
+Print Assumptions C16_no_leak.
+
+(* A request dropped while it was still queued: the token the helper takes for it goes straight back. *)
+Theorem C16_no_leak_cancelled_waiter :
+  forall (s s' : st) (h : rid) (q : list rid),
+  step s Deliver = Some s' -> queue s = h :: q -> mem h (gone s) = true ->
+  pool s' = pool s + 1 /\ hand s' = false /\ slots s' = slots s.
+Proof. exact no_leak_gone. Qed.
+Print Assumptions C16_no_leak_cancelled_waiter.
+
+(* After ANY history, once nobody waits or holds, every token is back (and no helper cycle is owed). *)
+Theorem C16_no_leak_quiescent :
+  forall (n : N) (es : list event) (s : st),
+  run (init n) es = Some s -> quiescent s = true -> pool s = n /\ reqs s = 0 /\ gone s = [].
+Proof. exact no_leak_quiescent. Qed.
+Print Assumptions C16_no_leak_quiescent.
+
+(* ... and full parallelism is restored: a burst of n fresh requests is served one after the other and all
+   n hold a token at once; an n+1-th request then finds the helper unable to move (it waits). *)
+Theorem C16_full_parallelism_restored :
+  forall (n : N) (es : list event) (s : st) (r0 : rid),
+  run (init n) es = Some s -> quiescent s = true ->
+  (forall i, (i < N.to_nat n)%nat -> active s (r0 + N.of_nat i) = false) ->
+  exists s', run s (burst (N.to_nat n) r0) = Some s' /\
+             holding s' = n /\ pool s' = 0 /\
+             (forall r s1, step s' (Request r) = Some s1 -> helper_enabled s1 = None).
+Proof. exact full_parallelism_restored. Qed.
+Print Assumptions C16_full_parallelism_restored.
+
+(* The queue is a FIFO and a token only ever goes to its head: every step leaves the queue alone, appends the
+   new request at the tail, or (Deliver) removes the head h — giving h the token, or returning the token to
+   the pipe when h's receiver is gone. *)
+Theorem C16_fifo :
+  forall (s : st) (e : event) (s' : st),
+  step s e = Some s' ->
+  (queue s' = queue s /\ e <> Deliver /\ (forall r, e <> Request r)) \/
+  (exists r, e = Request r /\ queue s' = queue s ++ [r]) \/
+  (e = Deliver /\ exists h, queue s = h :: queue s' /\
+     ((mem h (gone s) = false /\ slots s' = slots s ++ [h] /\ pool s' = pool s) \/
+      (mem h (gone s) = true /\ slots s' = slots s /\ pool s' = pool s + 1))).
+Proof. exact fifo_step. Qed.
+Print Assumptions C16_fifo.
+
+(* No deadlock: if somebody waits, either the helper thread can move, or every token is out with some
+   requester that can give it back (and the pipe is empty, the helper's hands too). *)
+Theorem C16_never_stuck :
+  forall (n : N) (es : list event) (s : st),
+  run (init n) es = Some s -> 0 < n -> queue s <> [] ->
+  (exists e s', helper_enabled s = Some e /\ step s e = Some s') \/
+  (pool s = 0 /\ hand s = false /\
+   exists r e s', (mem r (slots s) || mem r (held s) || mem r (running s)) = true /\
+                  step s e = Some s' /\ gives_back s e = true).
+Proof. exact never_stuck. Qed.
+Print Assumptions C16_never_stuck.
+
+(* Progress.  An infinite execution (sched i is the i-th event, tr i the state before it) that is
+     - helper_fair: whenever the helper thread can move, some helper step eventually happens, and
+     - holders_let_go: whenever somebody waits while the pipe and the helper's hands are empty, some requester
+       eventually gives a token back (a running process exits, a Child / Acquired / delivered request is dropped),
+   serves every queued request: r reaches the head and the token is handed to it (it lands in r's slot
+   unless r's receiver was dropped).  No bound on how many requests are ahead of r or arrive meanwhile. *)
+Theorem C16_progress :
+  forall (n : N) (sched : nat -> event) (tr : nat -> st),
+  0 < n -> execution n sched tr -> helper_fair sched tr -> holders_let_go sched tr ->
+  forall (i : nat) (r : rid), In r (queue (tr i)) ->
+    exists j q, (i <= j)%nat /\ sched j = Deliver /\ queue (tr j) = r :: q /\
+                (mem r (gone (tr j)) = false -> In r (slots (tr (S j)))).
+Proof. exact progress. Qed.
+Print Assumptions C16_progress.
+
+(* ---------------------------------------------------------------- non-vacuity *)
+
+(* a contended history with every kind of exit: 2 tokens, 5 requests; 3 is dropped while queued, 4 is dropped
+   with the token already in its slot, 1 fails to spawn, 2 runs and exits non-zero, 5 is dropped while running *)
+Example C16_history :
+  exists s,
+    run (init 2) [Request 1; Request 2; Request 3; Request 4; Request 5; HelperAcquire; Deliver; HelperAcquire;
+                  Deliver; Receive 1; Receive 2; Cancel 3; SpawnFail 1; Start 2; HelperAcquire; Deliver;
+                  HelperAcquire; Deliver; Cancel 4; HelperAcquire; Deliver; Receive 5; Start 5; Exit 2 false;
+                  DropRunning 5] = Some s /\
+    quiescent s = true /\ pool s = 2 /\ orphans s = [5].
+Proof. eexists. split; [vm_compute; reflexivity|]. vm_compute. auto. Qed.
+
+(* the helper cannot take a third token *)
+Example C16_third_is_refused :
+  run (init 2) [Request 1; Request 2; Request 3; HelperAcquire; Deliver; HelperAcquire; Deliver; HelperAcquire] = None.
+Proof. vm_compute. reflexivity. Qed.
+
+(* the hypotheses of C16_progress are satisfiable by an execution in which a request really waits *)
+Example C16_fair_execution_exists :
+  exists sched tr, execution 1 sched tr /\ helper_fair sched tr /\ holders_let_go sched tr /\
+                   exists i r, In r (queue (tr i)).
+Proof.
+  exists w_sched, w_tr. repeat split; try apply w_execution; try apply w_helper_fair; try apply w_holders_let_go.
+  exists 1%nat, 1. exact w_waits.
+Qed.
